@@ -97,7 +97,8 @@ def run(ctx):
                 if ins:
                     # the insert happens only under options() == SkipField
                     skip_reg = any(strip(ev[2])[0] == 'discr' and has_call(strip(ev[2]), 'model::data::Message::options') and ev[3] == 0
-                                   for ev in path_branches(st))
+                                   for ev in path_branches(st)) \
+                        and all(has_call(resolve(st, e_[2][1]), 'model::data::Message::options') for e_ in ins)
                 ctx.check(len(opcalls) == 1 and len(optcalls) == 1 and skip_reg, 'R18.1', 'component:%s:processed' % op,
                           'Component::%s: a live field is %s exactly once and its SkipField option is registered' % (op, {'write': 'written', 'read': 'read', 'length': 'counted'}[op]),
                           b.where(), 'Component::%s does not process each live field exactly once and register its SkipField option' % op)
